@@ -27,9 +27,41 @@ type (
 	Header       = http.Header
 )
 
-const StatusNotFound = http.StatusNotFound
+// the parts of net/http's surface a client-side change to grafananet.go may plausibly reach for; everything that would open a
+// real socket (DefaultClient, DefaultTransport, Get, Post, ListenAndServe) is deliberately absent, so that such a change fails
+// to build (exit 2) instead of escaping the simulation
+const (
+	MethodGet    = http.MethodGet
+	MethodPost   = http.MethodPost
+	MethodPut    = http.MethodPut
+	MethodDelete = http.MethodDelete
+	MethodHead   = http.MethodHead
 
-var NewRequest = http.NewRequest
+	StatusOK                  = http.StatusOK
+	StatusCreated             = http.StatusCreated
+	StatusAccepted            = http.StatusAccepted
+	StatusNoContent           = http.StatusNoContent
+	StatusMultipleChoices     = http.StatusMultipleChoices
+	StatusBadRequest          = http.StatusBadRequest
+	StatusUnauthorized        = http.StatusUnauthorized
+	StatusForbidden           = http.StatusForbidden
+	StatusNotFound            = http.StatusNotFound
+	StatusRequestTimeout      = http.StatusRequestTimeout
+	StatusTooManyRequests     = http.StatusTooManyRequests
+	StatusInternalServerError = http.StatusInternalServerError
+	StatusBadGateway          = http.StatusBadGateway
+	StatusServiceUnavailable  = http.StatusServiceUnavailable
+	StatusGatewayTimeout      = http.StatusGatewayTimeout
+)
+
+var (
+	NewRequest            = http.NewRequest
+	NewRequestWithContext = http.NewRequestWithContext
+	StatusText            = http.StatusText
+	ErrUseLastResponse    = http.ErrUseLastResponse
+)
+
+type Cookie = http.Cookie
 
 func ProxyFromEnvironment(*http.Request) (*url.URL, error) { return nil, nil }
 
